@@ -20,6 +20,7 @@ ASSUMPTIONS = [
     "the stdout default logger prints '<time> <level> <tags>' (start_stdout_logger_thread); its timestamp is not compared",
 ]
 EXHAUSTIVE = {"quick": False, "thorough": False}
+MARKED = True   # the stdout default logger of the code under test may print; observation lines carry the @@ mark
 
 PRIO_NAMES = ["msg", "http_method", "path", "request_body_len", "request_body", "response_body_len"]
 OTHER_NAMES = ["code", "request_id", "k", "x", "a b", "K", "é", "n\"q", "", "user", "zz", "msg2", "Path"]
